@@ -99,6 +99,10 @@ func VerifC04Receive(s *Session, n *com.Packet) (leaves []string, replies []stri
 	return
 }
 
+// VerifC04SessionCrypt applies the Session's payload cipher to n (what the peer of that Session
+// does before sending, so that the Session's own decryption yields the bytes written).
+func VerifC04SessionCrypt(s *Session, n *com.Packet) { n.KeyCrypt(s.keys) }
+
 // VerifC04Held returns the number of fragments held in reassembly state.
 func (s *Session) VerifC04Held() int {
 	n := 0
